@@ -52,12 +52,19 @@ def materialize_defaults(value: Any) -> None:
 
   def traverse(node, state: daglish.State):
     if isinstance(node, config.Buildable):
+      # Whether every positional-only parameter so far has a value: a later
+      # positional-only argument can only be passed if all earlier ones are.
+      positional_prefix_set = True
       for index, arg in enumerate(node.__signature_info__.parameters.values()):
+        if arg.kind == arg.POSITIONAL_ONLY and arg.default is arg.empty:
+          positional_prefix_set = (
+              positional_prefix_set and index in node.__arguments__
+          )
         if arg.default is arg.empty:
           continue
         if arg.kind == arg.POSITIONAL_ONLY:
           # Positional-only arguments are stored (and set) by index.
-          if index not in node.__arguments__:
+          if index not in node.__arguments__ and positional_prefix_set:
             node[index] = arg.default
         elif arg.name not in node.__arguments__:
           setattr(node, arg.name, arg.default)
